@@ -381,7 +381,9 @@ func scripted() {
 		k := fmt.Sprintf("big/%d", n)
 		e.up(k, gen(n, n), true)
 		e.up(k, gen(n, n), true)
-		e.up(k, gen(n-1, n), true)
+		if n < 1<<20 {
+			e.up(k, gen(n-1, n), true)
+		}
 		e.up(k, gen(n+1, n), true)
 		e.up(k, gen(n, n+1), true)
 		e.fetch(k)
@@ -596,7 +598,7 @@ func withTimeout(d time.Duration, f func() string) (string, bool) {
 // Upload of empty immutable contents twice returns (the pre-fix compareFile spun forever)
 func monEmptyTwice() bool {
 	e := newEnv(true)
-	res, ok := withTimeout(10*time.Second, func() string {
+	res, ok := withTimeout(45*time.Second, func() string {
 		im := &ctlog.UploadOptions{Immutable: true}
 		if err := e.b.Upload(e.ctx, "a/empty", []byte{}, im); err != nil {
 			return "FAILS:first-upload:" + class(err)
@@ -655,7 +657,7 @@ func monImmutable(r *rand.Rand, rounds int) {
 			}
 			variants = append(variants, orig[:n-1], orig[1:])
 		}
-		res, ok := withTimeout(20*time.Second, func() string {
+		res, ok := withTimeout(45*time.Second, func() string {
 			if err := e.b.Upload(e.ctx, key, orig, im); err != nil {
 				return "FAILS:first-upload:" + class(err)
 			}
@@ -899,7 +901,7 @@ func helper(root string, script string) {
 	emit("reset", b2i(capImm)+"|"+b2i(mk), "ok")
 	for i, o := range ops {
 		marker(fmt.Sprintf("begin %d", i))
-		wd := time.AfterFunc(20*time.Second, func() {
+		wd := time.AfterFunc(60*time.Second, func() {
 			marker(fmt.Sprintf("hang %d", i))
 			out.Flush()
 			os.Exit(3)
